@@ -282,7 +282,8 @@ def concurrent_run(chk, progs, policy):
             inside.add(id(t))
         else:
             inside.discard(id(t))
-    return dict(results=results, overlap=overlap, leftover=leftover, stuck=stuck, reconnect=reconnect, preempt=preempt,
+    tcp = sum(1 for e in net.log if e[0] == 'connect') - (1 if reconnect == 'ok' else 0)
+    return dict(results=results, overlap=overlap, leftover=leftover, stuck=stuck, reconnect=reconnect, preempt=preempt, tcp=tcp,
                 decisions=decisions, errors={t: exn_name(w.error) for t, w in sc.workers.items() if w.error not in (None, 'end-of-script') and not isinstance(w.error, sim.EndOfScript)},
                 nthreads=next_tid[0] - 100)
 
@@ -297,6 +298,8 @@ def check_concurrent(chk, progs, o, label):
         what = '%s() raised %s to its caller' % (bad[0][1], bad[0][2][7:])
     elif any(r[1].startswith('disconnect') and r[2] != 'ok' for r in o['results']):
         what = 'disconnect() did not return normally'
+    elif o['tcp'] != sum(1 for r in o['results'] if r[1] in ('connect', 'status') and r[2] == 'ok'):
+        what = '%d TCP connections were opened for %d accepted connect()/status() calls: a refused call disturbed the active connection' % (o['tcp'], sum(1 for r in o['results'] if r[1] in ('connect', 'status') and r[2] == 'ok'))
     elif o['stuck']:
         what = 'no thread can move although some have not finished (deadlock)'
     elif o['leftover']:
